@@ -33,12 +33,18 @@ type consumerCfg struct {
 
 type pipeCase struct {
 	Input     string        `json:"input"`
-	Chunk     int           `json:"chunk_max"` // reader delivers 1..Chunk bytes per call
+	More      []string      `json:"more_inputs,omitempty"` // further sources processed through the SAME AppCore, one after the other
+	Chunk     int           `json:"chunk_max"`             // reader delivers 1..Chunk bytes per call
 	ReaderPro int           `json:"reader_profile"`
 	Procs     int           `json:"gomaxprocs"`
 	Consumers []consumerCfg `json:"consumers"`
 	Hook      string        `json:"hook_profile"`
 	Seed      uint64        `json:"sched_seed"`
+	// transient interruptions (only with a non-zero tolerance): the reader reports one
+	// end-of-file at each of these byte offsets of the first source, pausing first
+	TolMs   uint  `json:"tolerance_ms,omitempty"`
+	EOFAt   []int `json:"transient_eof_at,omitempty"`
+	PauseMs []int `json:"pause_before_eof_ms,omitempty"`
 }
 
 // chunkReader hands out the input in chunks with pauses, then reports io.EOF.
@@ -47,14 +53,32 @@ type chunkReader struct {
 	max     int
 	profile int
 	r       *ref.SplitMix64
+	off     int
+	eofAt   []int
+	pauseMs []int
 }
 
 func (cr *chunkReader) Read(p []byte) (int, error) {
+	tick()
 	perturb(cr.r, cr.profile)
 	if len(cr.data) == 0 {
 		return 0, io.EOF
 	}
 	n := 1 + cr.r.Intn(cr.max)
+	if len(cr.eofAt) > 0 {
+		if cr.off >= cr.eofAt[0] {
+			// a transient end of file: the next read supplies data again
+			if len(cr.pauseMs) > 0 {
+				time.Sleep(time.Duration(cr.pauseMs[0]) * time.Millisecond)
+				cr.pauseMs = cr.pauseMs[1:]
+			}
+			cr.eofAt = cr.eofAt[1:]
+			return 0, io.EOF
+		}
+		if cr.off+n > cr.eofAt[0] {
+			n = cr.eofAt[0] - cr.off
+		}
+	}
 	if n > len(p) {
 		n = len(p)
 	}
@@ -63,6 +87,7 @@ func (cr *chunkReader) Read(p []byte) (int, error) {
 	}
 	copy(p, cr.data[:n])
 	cr.data = cr.data[n:]
+	cr.off += n
 	return n, nil
 }
 
@@ -116,11 +141,19 @@ type recvd struct {
 }
 
 func execC09(c *child.Ctx, k pipeCase, cj []byte, traces, pairs map[uint64]struct{}) int {
-	input := unhex(k.Input)
+	inputs := [][]byte{unhex(k.Input)}
+	for _, m := range k.More {
+		inputs = append(inputs, unhex(m))
+	}
 	if k.Procs > 0 {
 		runtime.GOMAXPROCS(k.Procs)
 	}
-	baseline := runSequential(fixedStart, slog.LevelDebug, input)
+	// sequential framing of the same bytes: each source is framed on its own, as
+	// the file handler creates a fresh RTCM handler per source
+	var baseline []handler.Message
+	for _, in := range inputs {
+		baseline = append(baseline, runSequential(fixedStart, slog.LevelDebug, in)...)
+	}
 
 	channels := make([]chan handler.Message, len(k.Consumers))
 	results := make([][]recvd, len(k.Consumers))
@@ -134,6 +167,7 @@ func execC09(c *child.Ctx, k pipeCase, cj []byte, traces, pairs map[uint64]struc
 		go func(i int, cc consumerCfg) {
 			r := ref.NewRand(k.Seed*31 + uint64(i))
 			for m := range channels[i] {
+				tick()
 				results[i] = append(results[i], recvd{Type: m.MessageType, Raw: m.RawData, Copy: append([]byte(nil), m.RawData...)})
 				consumerDelay(r, cc.Profile)
 			}
@@ -141,41 +175,56 @@ func execC09(c *child.Ctx, k pipeCase, cj []byte, traces, pairs map[uint64]struc
 		}(i, cc)
 	}
 	cfg := &jsonconfig.Config{} // zero tolerance: stop at the first end of file
+	if k.TolMs > 0 {
+		cfg = &jsonconfig.Config{WaitTimeOnEOFMilliseconds: 1, TimeoutOnEOFMilliSeconds: k.TolMs}
+	}
 	core := appcore.New(cfg, channels)
-	rd := bufio.NewReader(&chunkReader{data: input, max: k.Chunk, profile: k.ReaderPro, r: ref.NewRand(k.Seed*17 + 5)})
 
 	verifhook.Begin(k.Seed, k.Hook)
-	returned := make(chan struct{})
-	ret := -1
-	go func() {
-		ret = core.HandleMessagesUntilEOF(fixedStart, rd)
-		close(returned)
-	}()
-	waitOrHang(returned, caseWatchdog, "HandleMessagesUntilEOF did not return after the source was exhausted")
-	if ret != 0 {
-		c.Violate("wrong-return", fmt.Sprintf("HandleMessagesUntilEOF returned %d", ret), cj)
-	}
-
-	// all helper goroutines must finish: sample the goroutine states
 	leaked := ""
 	blockedStreak := 0
-	for s := 0; s < 400; s++ {
-		blocks, allBlocked := helperGoroutines()
-		if len(blocks) == 0 {
-			leaked = ""
-			blockedStreak = 0
+	for si, input := range inputs {
+		cr := &chunkReader{data: input, max: k.Chunk, profile: k.ReaderPro, r: ref.NewRand(k.Seed*17 + 5 + uint64(si))}
+		if si == 0 && k.TolMs > 0 {
+			cr.eofAt = append([]int(nil), k.EOFAt...)
+			cr.pauseMs = append([]int(nil), k.PauseMs...)
+		}
+		rd := bufio.NewReader(cr)
+		returned := make(chan struct{})
+		ret := -1
+		go func() {
+			ret = core.HandleMessagesUntilEOF(fixedStart, rd)
+			close(returned)
+		}()
+		waitOrHang(returned, caseWatchdog, "HandleMessagesUntilEOF did not return after the source was exhausted")
+		if ret != 0 {
+			c.Violate("wrong-return", fmt.Sprintf("HandleMessagesUntilEOF returned %d for source %d", ret, si), cj)
+		}
+
+		// all helper goroutines must finish: sample the goroutine states
+		leaked = ""
+		blockedStreak = 0
+		for s := 0; s < 400; s++ {
+			blocks, allBlocked := helperGoroutines()
+			if len(blocks) == 0 {
+				leaked = ""
+				blockedStreak = 0
+				break
+			}
+			leaked = strings.Join(blocks, "\n\n")
+			if allBlocked {
+				blockedStreak++
+			} else {
+				blockedStreak = 0
+			}
+			if blockedStreak >= 40 { // blocked in every sample for >= 200 ms: nothing can wake it
+				break
+			}
+			time.Sleep(5 * time.Millisecond)
+		}
+		if leaked != "" {
 			break
 		}
-		leaked = strings.Join(blocks, "\n\n")
-		if allBlocked {
-			blockedStreak++
-		} else {
-			blockedStreak = 0
-		}
-		if blockedStreak >= 40 { // blocked in every sample for >= 200 ms: nothing can wake it
-			break
-		}
-		time.Sleep(5 * time.Millisecond)
 	}
 	sum := verifhook.End()
 	if leaked != "" {
@@ -228,6 +277,7 @@ func execC09(c *child.Ctx, k pipeCase, cj []byte, traces, pairs map[uint64]struc
 		}
 	}
 	c.Count("messages_received_by_consumers", int64(nmsgs))
+	c.Count("sources_processed", int64(len(inputs)))
 	c.Count("hook_events", int64(sum.Events))
 	if traces != nil {
 		traces[sum.TraceHash] = struct{}{}
@@ -299,6 +349,35 @@ func monC09(c *child.Ctx, replay json.RawMessage) {
 			// keep slow runs short
 			input = input[:4000]
 			k.Input = hexs(input)
+		}
+		if r.Chance(1, 3) {
+			// the production loop reconnects and feeds a new source through the same AppCore
+			for extra := r.Range(1, 2); extra > 0; extra-- {
+				more := gen.CleanStream(r, gen.CleanOpts{MinFrames: 1, MaxFrames: 5, TruncTail: true}).Bytes()
+				if extra == 1 && r.Chance(1, 4) {
+					more = []byte("no frames in this source")
+				}
+				if len(more) > 3000 {
+					more = more[:3000]
+				}
+				k.More = append(k.More, hexs(more))
+			}
+		}
+		if i%8 == 5 && !slow {
+			// a live source: bursts separated by single transient end-of-file results
+			// (each within the tolerance), some of them far apart in time
+			k.TolMs = 60
+			n := r.Range(2, 4)
+			at := 0
+			for e := 0; e < n && at < len(input)-2; e++ {
+				at = r.Range(at+1, len(input)-1)
+				k.EOFAt = append(k.EOFAt, at)
+				if e > 0 && r.Chance(2, 3) {
+					k.PauseMs = append(k.PauseMs, r.Range(70, 110)) // longer than the tolerance since the previous interruption
+				} else {
+					k.PauseMs = append(k.PauseMs, 0)
+				}
+			}
 		}
 		cj := c.BeginV(k)
 		nbase := execC09(c, k, cj, traces, pairs)
